@@ -325,6 +325,20 @@ func genBatch(t *rapid.T, s *schema, o *WorldOpts) []Item {
 		}
 		return items
 	}
+	if !o.NoExtremes && rapid.IntRange(0, 29).Draw(t, "fatblock") == 0 {
+		// a "fat" stored block: ~100 documents whose stored values add up to more
+		// than 8 MiB before compression (they compress to almost nothing, so the
+		// segment stays small); one 128-document block holds them
+		val := make(model.Bytes, 90<<10+rapid.IntRange(0, 30<<10).Draw(t, "fatlen"))
+		for i := range val {
+			val[i] = "stored-value-"[i%13]
+		}
+		d := genDoc(t, s)
+		d.Fields = append(d.Fields, model.Field{Name: s.fields[0], Store: true, Val: val})
+		items = append(items, Item{Rep: &Rep{N: rapid.IntRange(90, 127).Draw(t, "fatn"), Tmpl: []model.Doc{d}}})
+		explicit(0, 2, "ntail")
+		return items
+	}
 	explicit(0, 3, "nhead")
 	var n int
 	if rapid.IntRange(0, 99).Draw(t, "huge") < o.HugePct {
